@@ -4,7 +4,6 @@ package main
 // with the full state dumped and compared after the mutating steps.
 
 import (
-	"sync/atomic"
 	"encoding/binary"
 	"errors"
 	"fmt"
@@ -12,6 +11,7 @@ import (
 	"sort"
 	"strconv"
 	"strings"
+	"sync/atomic"
 	"time"
 
 	dto "github.com/prometheus/client_model/go"
@@ -446,12 +446,12 @@ func mkUniverse(r *Rng, nIH, nPeers int) universe {
 }
 
 type storeProfile struct {
-	name                                             string
-	wPut, wDel, wGrad, wAnn, wScrape, wGC, wClock    int
-	dumpEvery                                        int
-	totals                                           bool
-	seqLen                                           int
-	bigSwarm                                         bool
+	name                                          string
+	wPut, wDel, wGrad, wAnn, wScrape, wGC, wClock int
+	dumpEvery                                     int
+	totals                                        bool
+	seqLen                                        int
+	bigSwarm                                      bool
 }
 
 var storeProfiles = map[string]storeProfile{
